@@ -11,7 +11,7 @@
 From Coq Require Import List Arith NArith Bool ZArith.
 From NngV Require Import Gen.Consts Proto.Common Proto.ReqRepBacktrace Proto.ReqModel Proto.RepModel Proto.XReqModel Proto.XRepModel
   Proto.ReqRepProofs Proto.ReqProofs Proto.RepProofs Proto.XReqRepProofs Proto.ReqIdsProofs.
-From NngV Require Proto.PollModel Proto.PollReq.
+From NngV Require Proto.PollModel Proto.PollReq Proto.PollRepX.
 Import ListNotations.
 
 (* ---- REQ ---- *)
@@ -342,6 +342,12 @@ Theorem rep_send_poll_mirror_repaired_partial :
   poll_w (rep_poll (fst (rep_step pf_repaired s (PSendDone 1%N 0%N)))) = Some true.
 Proof. exact rep_send_poll_mirror_repaired_w. Qed.
 Print Assumptions rep_send_poll_mirror_repaired_partial.
+(* ... the witness above; over ALL reachable states of the repaired REP model both halves of the descriptor mirror
+   (C15's clause in the uniform interface of Proto/PollModel.v) hold -- proved in Proto/PollRepX.v, restated here *)
+Theorem rep_poll_mirror_holds : forall pf, pf_rclose pf = true -> pf_saio pf = true -> pf_wbusy pf = true ->
+  PollModel.C15_mirror (PollRepX.M_rep pf).
+Proof. exact PollRepX.rep_c15_mirror. Qed.
+Print Assumptions rep_poll_mirror_holds.
 
 (* ---- headers (shared with C13) ---- *)
 Theorem xrep_header_push_pop : forall p ttl wire m,
@@ -411,6 +417,13 @@ Theorem xreq_get_runs_putq_repaired_partial :     (* PARTIAL: witness history on
   In (Complete 2%N E_OK None) (snd (xreq_step mf_repaired (xreq_run mf_repaired xreq_init (firstn 3 w_getput_ops)) (PPipeStart 1%N PROTO_REP))).
 Proof. exact xreq_get_runs_putq_repaired_w. Qed.
 Print Assumptions xreq_get_runs_putq_repaired_partial.
+(* ... the two witnesses above; over ALL reachable states of the raw REQ model with the repaired message queue
+   (non-blocking first, resize wakes, get runs the put queue) the mirror holds in its exact form: a descriptor is
+   raised IF AND ONLY IF the non-blocking operation succeeds -- proved in Proto/PollRepX.v, restated here *)
+Theorem xreq_poll_mirror_holds : forall mf, mf_nb mf = true -> mf_resize mf = true -> mf_getput mf = true ->
+  PollModel.C15_mirror_iff (PollRepX.M_xreq mf) /\ PollModel.C15_mirror (PollRepX.M_xreq mf).
+Proof. intros mf F1 F2 F3. split; [exact (PollRepX.xreq_c15_mirror_iff mf F1 F2 F3)|exact (PollRepX.xreq_c15_mirror mf F1 F2 F3)]. Qed.
+Print Assumptions xreq_poll_mirror_holds.
 Theorem xreq_xrep_poll_mirror :
   (forall s, (mq_getq (xq_urq s) = [] -> (poll_r (xreq_poll s) = Some true <-> mq_get_waits (xq_urq s) = false)) /\
              (mq_putq (xq_uwq s) = [] -> (poll_w (xreq_poll s) = Some true <-> mq_put_waits (xq_uwq s) = false))) /\
